@@ -299,6 +299,33 @@ def run_jointempo(case):
             flags.append("second-operand-tempo-changed")
         if [ticks(x.duration) for x in r] != [da, db] or [ticks(x.duration) for x in a] != [da] or [ticks(x.duration) for x in b] != [db]:
             flags.append("content-wrong")
+    elif kind in ("unmatched_index", "unmatched_tag"):
+        # a voice that only the second operand has: it is new in the result, behind a padding rest of the first operand's
+        # duration; its tempo has to be the second operand's, shifted by that duration (known finding F9)
+        a = P_([S_([C_(da / TICK)], tempo=ta, tag="v")])
+        b = P_([S_([C_(db / TICK)], tag="v"), S_([C_(db / TICK)], tempo=tb, tag="w")])
+        if kind == "unmatched_index":
+            a.concatenate_by_index(b)
+        else:
+            a.concatenate_by_tag(b)
+        rt = a[1].tempo
+        if tempo_points(b[1].tempo) != tb_before:
+            flags.append("second-operand-tempo-changed")
+        if rt is b[1].tempo:
+            flags.append("new-voice-shares-the-tempo-object-of-the-second-operand")
+        if [ticks(x.duration) for x in a[1]] != [da, db]:
+            flags.append("content-wrong")
+        out = ["ok", tempo_points(rt)]
+        fb = cp.FlexTempo.from_parameter(build_tempo(case[4]))
+        frt = cp.FlexTempo.from_parameter(rt)
+        rows = []
+        for i in range(13):
+            x = da + db * i // 12 + (1 if i == 0 else 0)
+            rows.append([x, sf(frt.value_at(x / TICK)), sf(fb.value_at((x - da) / TICK))])
+        out.append(["grid"] + rows)
+        if flags:
+            out.append(["flags"] + flags)
+        return out
     elif kind == "topindex":
         # the simultaneities themselves carry the tempi (known finding F7)
         a = P_([S_([C_(da / TICK)], tag="v")], tempo=ta)
